@@ -719,6 +719,66 @@ func (v *env) runCase(line string) {
 	if !hasMoves && (before != after || len(callbacks) != 0) {
 		v.violation("gc-second-round-not-idle", fmt.Sprintf("second round under the same runtime answers changed the directories or called back %v", callbacks), line)
 	}
+	// ---- third round on the SAME collector: containers it has judged dead come back (docker start / restart
+	// policy / a transient not-found) and get their state again; they are running now, so nothing of theirs may go
+	// ("never for a running one" is about the container's state at the time of the round, not at an earlier one)
+	if c.Mode == "docker" && !hasMoves {
+		t3 := map[string]fk.Behaviour{}
+		for id, b := range c.Containers {
+			t3[id] = b
+		}
+		type revived struct{ path, cid string }
+		var back []revived
+		for _, ip := range []bool{true, false} {
+			specs, paths := c.GCDirs, gcDirs
+			if ip {
+				specs, paths = c.IPDirs, ipDirs
+			}
+			for i, d := range specs {
+				if d.Missing {
+					continue
+				}
+				for _, e := range d.E {
+					if !c.isDeadFile(ip, e) {
+						continue
+					}
+					cid := e.N
+					if ip {
+						cid = cidOf(e.C)
+					}
+					t3[cid] = "running"
+					fp := filepath.Join(paths[i], e.N)
+					if os.WriteFile(fp, []byte(e.C), 0o600) == nil {
+						back = append(back, revived{fp, cid})
+					}
+				}
+			}
+		}
+		if len(back) > 0 {
+			v.fd.Set(t3)
+			callbacks = nil
+			out = hx.Guard(120*time.Second, func() {
+				g.VerifCleanupIPOnce()
+				g.VerifCleanupGCDirsOnce()
+			})
+			v.fd.Set(c.Containers)
+			v.r.Hit("stream:revived-containers")
+			if out != "ok" {
+				v.violation("gc-round-"+strings.SplitN(out, ":", 2)[0], "third GC round: "+out, line)
+				return
+			}
+			for _, b := range back {
+				if _, err := os.Lstat(b.path); err != nil {
+					v.violation("gc-removed:running-after-restart", fmt.Sprintf("container %q was dead in rounds 1-2, is running in round 3 with its state written again: %s was removed by the same collector",
+						b.cid, filepath.Base(filepath.Dir(b.path))+"/"+filepath.Base(b.path)), line)
+					break
+				}
+			}
+			if len(callbacks) != 0 {
+				v.violation("gc-callback:running-after-restart", fmt.Sprintf("port-mapping cleanup was called for running containers %v in round 3", callbacks), line)
+			}
+		}
+	}
 }
 
 // erroring: the inspect call for this behaviour fails with something other than not-found (persistently: the fakes
